@@ -2,7 +2,9 @@
 import os, re, subprocess
 import common
 
-THEOREMS = []
+THEOREMS = ["C09_parse_never_stuck", "C09_feed_never_stuck", "C09_feed_split_irrelevant",
+            "C09_refparser_sound_complete", "C09_refparser_error_index", "C09_automaton_eq_refparser",
+            "C09_automaton_accepts_grammar", "C09_automaton_error_index", "C09_unfinished_is_viable"]
 MODELS = ("parse",)
 RULE = ("(1) every viable token prefix up to the tier's length bound (quick 8, thorough 10 + core alphabet at 11) over "
         "the 18 token kinds: each viable prefix is extended by every kind (literal and identifier spellings vary with "
